@@ -132,7 +132,7 @@ type slotRef struct {
 
 func (s slotRef) name() string {
 	st := s.parent.Underlying().(*types.Struct)
-	n := s.parent.Obj().Name() + "." + st.Field(s.field).Name()
+	n := core.KnownTypeName(s.parent) + "." + st.Field(s.field).Name()
 	if s.index != nil {
 		if c, ok := core.ConstInt(s.index); ok {
 			return fmt.Sprintf("%s[%d]", n, c)
@@ -584,7 +584,7 @@ func slotInit(p *core.Prog, r *core.Report, si *slotInfo) {
 			}
 			n++
 			fname := parent.Underlying().(*types.Struct).Field(field).Name()
-			key := fn + ":" + parent.Obj().Name() + "." + fname
+			key := fn + ":" + core.KnownTypeName(parent) + "." + fname
 			if core.IsNilConst(st.Val) {
 				r.OK(rule, key+":clear", p.Pos(st.Pos()), "slot emptied")
 				return
@@ -712,12 +712,15 @@ func selfRedeem(p *core.Prog, r *core.Report, si *slotInfo) {
 		if T == si.pi.resultType {
 			continue
 		}
-		f := p.Func("(*" + T.Obj().Name() + ").Validate")
+		f := p.Func("(*" + core.KnownTypeName(T) + ").Validate")
+		if f == nil {
+			f = methodByType(p, T, "Validate") // the type may have been renamed
+		}
 		if f == nil {
 			continue
 		}
 		n++
-		tn := T.Obj().Name()
+		tn := core.KnownTypeName(T)
 		hasSlots := len(si.slots[T]) > 0
 		var dfr *ssa.Defer
 		var selfCalls, childCalls int
@@ -877,4 +880,18 @@ func oneShot(p *core.Prog, r *core.Report, si *slotInfo) {
 	}
 	r.Count("oneshot_sites", n)
 	r.Floor("oneshot_sites", 15)
+}
+
+// methodByType: the method of the named type T (value or pointer receiver) whose name — as written today or as
+// the anchors know it — is name.
+func methodByType(p *core.Prog, T *types.Named, name string) *ssa.Function {
+	for _, f := range p.Funcs {
+		if f.Parent() != nil || f.Signature.Recv() == nil || core.NamedOf(f.Signature.Recv().Type()) != T {
+			continue
+		}
+		if f.Name() == name || strings.HasSuffix(core.FuncName(f), ")."+name) {
+			return f
+		}
+	}
+	return nil
 }
